@@ -44,3 +44,7 @@ package selector
 //@ func (Selector).Remove
 //@   trusted
 //@   allocates
+//
+//@ func (Selector).Add
+//@   trusted
+//@   allocates
